@@ -21,6 +21,8 @@ CFG = """CONSTANTS
   PerMut = %d
   SchemasPer = %d
   QMod = %d
+  JMod = %d
+  Q3Mod = %d
   PMod = %d
 INIT Init
 NEXT Next
@@ -37,6 +39,12 @@ NEED_STMT = ["ins", "upsert", "insdn", "upd", "del"]
 NEED_STATE = ["intx", "committed", "reopened"]
 NEED_READERS = ["raw[pk]", "raw[secondary]", "raw[composite]", "raw[unique]", "conditional", "sort", "sort:topN", "distinct",
                 "limit", "offset", "grouped", "hashGrouped", "counting", "keyFilterCounting", "joint", ":desc]"]
+# situations the seeded-change review asked the check never to be vacuous about (counted by the harness from what really ran)
+NEED_GUARDS = ["class1:cross-type-range-on-float-leading-column/rows-on-next-column/index(f,g)",
+               "class1:cross-type-range-on-float-leading-column/group-on-next-column/index(f,g)",
+               "class2:multi-column-nullable-group-by/hash", "class2:multi-column-nullable-group-by/hash/in-writing-tx",
+               "class2:multi-column-nullable-group-by/streaming", "join:order-by-inner-table-column",
+               "join:hash-join-with-correlated-non-equi-conjunct", "order:explicit-nulls-placement-served-by-index"]
 NEED_FORMS = ["idx:engine/where:plain", "idx:forced/where:plain", "idx:forced/where:notnot", "idx:engine/where:flip",
               "derived-table", "join:hash/outer:engine", "join:nested/outer:engine", "join:hash/outer:forced",
               "join:nested/inner:forced", "join:derived-inner", "join:hash-unqualified-inner", "join:hash/where:unqualified",
@@ -50,15 +58,15 @@ def run(chk, args):
         chk.seed = int(replay.get("seed", chk.seed))
         chk.tier = replay.get("tier", chk.tier)
     thorough = chk.tier == "thorough"
-    permut, schemas_per, qmod, pmod = (10, 5, 7, 2) if thorough else (2, 3, 31, 7)
+    permut, schemas_per, qmod, jmod, q3mod, pmod = (10, 5, 7, 3, 3, 2) if thorough else (2, 3, 31, 17, 17, 7)
     binp = vlib.go_build("c11")
     wd = vlib.scratch("c11_")
     out = os.path.join(wd, "cases.json")
     os.makedirs(os.path.join(wd, "tlc"))
     res = vlib.run_tlc("SQLQuery", "sqlquery.cfg", workdir=os.path.join(wd, "tlc"), workers=1, timeout=1500 if thorough else 400,
-                       files=[("sqlquery.cfg", CFG % (out, chk.seed, permut, schemas_per, qmod, pmod))])
+                       files=[("sqlquery.cfg", CFG % (out, chk.seed, permut, schemas_per, qmod, jmod, q3mod, pmod))])
     vlib.tlc_must_pass(res, "SQLQuery")
-    chk.add_tlc(res, "SQLQuery PerMut=%d SchemasPer=%d QMod=%d PMod=%d Seed=%d" % (permut, schemas_per, qmod, pmod, chk.seed))
+    chk.add_tlc(res, "SQLQuery PerMut=%d SchemasPer=%d QMod=%d JMod=%d Q3Mod=%d PMod=%d Seed=%d" % (permut, schemas_per, qmod, jmod, q3mod, pmod, chk.seed))
     facts, counts = {}, {}
     for line in res.out.splitlines():
         line = line.strip()
@@ -73,15 +81,15 @@ def run(chk, args):
             raise MachineryFault("model fact %s is %r (the denotation printed by SQLQuery.tla is not what the module claims)" % (k, facts.get(k)))
     chk.cov["model_facts"] = facts
     chk.cov["enumerated"] = counts
-    for k in ["histories", "cases", "partitions", "touchy cases", "cases with a non-empty answer", "partitions with a non-empty NULL part",
+    for k in ["histories", "cases", "partitions", "join cases", "t3 cases", "multi-column GROUP BY cases telling groups apart by a later column", "touchy cases", "cases with a non-empty answer", "partitions with a non-empty NULL part",
               "histories with a transaction", "histories whose transaction removes rows"] + ["histories with " + s for s in NEED_STMT]:
         if not counts.get(k):
             raise MachineryFault("SQLQuery.tla enumerated no %s (vacuous run)" % k)
     for k, v in counts.items():
         if k.startswith("worlds under schema") and not v:
             raise MachineryFault("no world under a schema variant: %s" % k)
-    if counts["histories"] < qmod:
-        raise MachineryFault("%d histories < QMod %d: some queries would meet no history" % (counts["histories"], qmod))
+    if counts["histories"] < max(qmod, jmod, q3mod):
+        raise MachineryFault("%d histories < modulus %d: some queries would meet no history" % (counts["histories"], max(qmod, jmod, q3mod)))
     if not os.path.exists(out):
         raise MachineryFault("TLC did not write %s" % out)
 
@@ -97,8 +105,8 @@ def run(chk, args):
     r = json.loads(o)
     ctr = r.get("counters") or {}
     if not replay:
-        need = ["op:" + x for x in NEED_OPS] + ["query:" + x for x in NEED_QUERY] + ["state:" + x for x in NEED_STATE] + \
-               ["form:" + x for x in NEED_FORMS] + ["stmt:ins:in-tx", "stmt:upd:in-tx", "stmt:del:in-tx", "stmt:ins:autocommit",
+        need = ["op:" + x for x in NEED_OPS] + ["query:" + x for x in NEED_QUERY + ["t3/rows+order", "t3/group", "t3/rows+distinct", "t3/rows+order+limit"]] + ["state:" + x for x in NEED_STATE] + \
+               ["form:" + x for x in NEED_FORMS] + ["guard:" + x for x in NEED_GUARDS] + ["stmt:ins:in-tx", "stmt:upd:in-tx", "stmt:del:in-tx", "stmt:ins:autocommit",
                 "stmt:upd:autocommit", "stmt:del:autocommit", "touchy:refused", "touchy:answered", "partition:checked", "world"]
         for k in need:
             if not ctr.get(k):
@@ -114,6 +122,7 @@ def run(chk, args):
             raise MachineryFault("harness ran %s worlds, the spec wrote %s" % (ctr.get("world"), counts.get("worlds")))
     vlib.absorb(chk, r)
     chk.cov["plan_classes_compared"] = {k[5:]: v for k, v in sorted(ctr.items()) if k.startswith("plan:")}
+    chk.cov["guards"] = {k[6:]: v for k, v in sorted(ctr.items()) if k.startswith("guard:")}
     chk.cov["forms_compared"] = {k[5:]: v for k, v in sorted(ctr.items()) if k.startswith("form:")}
     chk.cov["rule"] = ("cases = (schema variant, DML history, query) triples sampled by spec/SQLQuery.tla with VERIF_SEED so that every "
                        "mutation sequence, every one of the %s queries and every predicate of the partition identity is met at least once per "
@@ -123,7 +132,7 @@ def run(chk, args):
     chk.cov["exhaustive"] = False
     chk.assumptions += [
         "model-based test generation: the verdict is only as wide as the enumerated fragment (2 tables, <= 6 rows, the predicates / shapes / "
-        "joins listed in SQLQuery.tla, 8 schema variants, 19 mutation sequences x 5 base tables x 3 transaction splits)",
+        "joins listed in SQLQuery.tla, a third table t3 with a FLOAT column and pairs of nullable columns, 8 schema variants, 19 mutation sequences x 5 base tables x 3 transaction splits)",
         "the denotation models the engine's dialect where it is plan-independent by construction: total comparison with NULL least and "
         "NULL = NULL, LIMIT without ORDER BY = any sub-bag, ties of ORDER BY = bags, global aggregates over an empty input = engine-defined "
         "cells that must agree across plans, UNKNOWN under AND/OR/NOT = the engine may refuse (error) or answer as Kleene logic does",
